@@ -147,6 +147,7 @@ func (e *swEnd) WriteMsgUDP(b, _ []byte, _ *net.UDPAddr) (int, int, error) {
 }
 
 func (e *swEnd) ReadMsgUDP(b, _ []byte) (int, int, int, *net.UDPAddr, error) {
+	noteBuf(len(b)) // Serve, listen and the client's handshake reads of the end-to-end runs
 	e.mu.Lock()
 	dl := e.dl
 	e.mu.Unlock()
